@@ -347,3 +347,23 @@ PROPS["C05"] = {
     "quick": [R("TestPropBufWriter", 20000, steps=40), R("TestPropHealthyConn", 120)],
     "thorough": [R("TestPropBufWriter", 300000, shards=4, steps=60, timeout=2400), R("TestPropHealthyConn", 500, shards=12, timeout=2400)],
 }
+
+PROPS["C06"] = {
+    "pkg": "c06", "level": "exploration",
+    "rule": ("rapid draws an endpoint behaviour (absent = refusing port; black hole = accepts, then never reads, 16 KiB receive buffer; throttled = reads 4-64 KiB "
+             "per ms; healthy; closing = closes every connection after 1..200000 bytes), a route type (sendAllMatch / sendFirstMatch / consistentHashing), "
+             "connbuf 0..1000, iobuf 16..65536, flush 1-100 ms, and 1-8 MB of traffic in lines of 30-200 bytes dispatched through a real table that "
+             "also holds a healthy sibling capture route. Oracle: (a) boundedness - the dispatcher goroutine is watched; no hand-off may take longer "
+             "than 2 s (typical: microseconds); a hit is re-run once and only a repeat is reported; the sibling route receives every metric; (b) "
+             "steady-state accounting - endpoint healthy or throttled for the whole case: after completion (sentinel line through the same route) "
+             "#handed = #received + slow_conn delta and every received line is intact; endpoint absent with spooling off: conn_down_no_spool "
+             "delta = #handed after a Flush barrier. Transitions (closing) and the black hole are checked for boundedness only, as the "
+             "statement says. Non-trivial: the traffic demonstrably exceeded the buffers (drop counters moved / traffic sent into a non-reading "
+             "endpoint). Distinct = hash(scenario parameters)."),
+    "level_text": "Generated fault scenarios against real destinations over loopback TCP with a latency watchdog and exact drop-accounting identities; liveness is sampled (bounded waiting), not proven.",
+    "level_note": "A wall-clock bound is an inherently fragile oracle: it is three orders of magnitude above normal and only a repeated hit is reported. Receive buffers are set on the listening socket (shrinking an established connection's buffer makes the kernel drop in-flight data).",
+    "technique": "property-based testing (rapid) with fault injection at the endpoint: latency-bound watchdog + accounting identities",
+    "assumptions": ["loopback TCP", "the scheduler gives the dispatcher goroutine CPU time within the bound"],
+    "quick": [R("TestPropBadEndpoint", 45)],
+    "thorough": [R("TestPropBadEndpoint", 120, shards=12, timeout=3000)],
+}
